@@ -329,6 +329,10 @@ def run(ctx):
                     r.hits.append(Hit('monitor', 'C05:doc_pre:%s:%s' % (key, b),
                                       'call %s respects its documented precondition (phase %s) but was rejected with invalid_status in history %s'
                                       % (key, b, h.hist_str()[:300]), dict(rp, op=o, phase=b)))
+                if a[:1] == 'X':
+                    r.hits.append(Hit('monitor', 'C05:wrong_error:%s:%s' % (key, b),
+                                      'call %s (phase %s) was rejected with error code %s instead of invalid_status in history %s'
+                                      % (key, b, a[1:], h.hist_str()[:300]), dict(rp, op=o, phase=b)))
                 if not doc_ok and a[:1] not in ('E', 'X'):
                     r.hits.append(Hit('monitor', 'C05:pre_not_enforced:%s:%s' % (key, b),
                                       'call %s violates its documented precondition (phase %s) but answered %s in history %s'
